@@ -88,6 +88,19 @@ class _Linalg:
     def eigh(self, a, UPLO="L"):
         return self._p._eig(a, "eigh")
 
+    def solve(self, a, b):
+        """numpy.linalg.solve with a symbolic matrix: the uninterpreted inverse of `a` (the same symbols `inv` would return, also recorded
+        as an inverse) applied to `b`; against the identity that is the inverse itself."""
+        if not (has_sym(a) or has_sym(b)):
+            return _np.linalg.solve(a, b)
+        inv = self._p._inv(a)
+        nb = _numeric_or_none(b)
+        n = _np.asarray(a, dtype=object).shape[-1]
+        if nb is not None and nb.shape[-2:] == (n, n) and _np.array_equal(nb, _np.broadcast_to(_np.identity(n), nb.shape)):
+            return inv
+        B = _np.asarray(b, dtype=object)
+        return _np.matmul(inv, B)
+
     def inv(self, a):
         return self._p._inv(a)
 
@@ -112,6 +125,65 @@ class NumpyProxy(types.ModuleType):
         if name in self.extra:
             return self.extra[name]
         return getattr(_np, name)
+
+    # -- contractions -----------------------------------------------------------
+    def einsum(self, subscripts, *operands, **kw):
+        """numpy.einsum; operands that carry Sym elements are contracted by an explicit sum of products over the index space
+        (explicit or implicit output, one ellipsis per operand)."""
+        if not isinstance(subscripts, str) or not any(has_sym(o) for o in operands):
+            return _np.einsum(subscripts, *operands, **kw)
+        try:
+            # numpy's own einsum first: it handles object arrays of one dtype and returns *views* where the real one does (the code
+            # writes through `einsum('...ii->...i', m)[...] = d`); only a mix it cannot cast (float with Sym) is contracted below
+            return _np.einsum(subscripts, *operands, **kw)
+        except (TypeError, ValueError):
+            pass
+        ops = [_np.asarray(o, dtype=object) if has_sym(o) else _np.asarray(o) for o in operands]
+        spec = subscripts.replace(" ", "")
+        ins, out = (spec.split("->") + [None])[:2] if "->" in spec else (spec, None)
+        ins = ins.split(",")
+        if len(ins) != len(ops):
+            raise ValueError("einsum: operand count does not match the subscripts")
+        free = [c for c in "ABCDEFGHIJKLMNOPQRSTUVWXYZ" if c not in spec]
+        ell_rank = 0
+        for sub, o in zip(ins, ops):
+            if "..." in sub:
+                ell_rank = max(ell_rank, o.ndim - len(sub.replace("...", "")))
+        ell = "".join(free[:ell_rank])
+        full = []
+        for sub, o in zip(ins, ops):
+            if "..." in sub:
+                r = o.ndim - len(sub.replace("...", ""))
+                sub = sub.replace("...", ell[ell_rank - r:] if r else "")
+            if len(sub) != o.ndim:
+                raise ValueError("einsum: subscripts %r do not match an operand of rank %d" % (sub, o.ndim))
+            full.append(sub)
+        if out is None:
+            letters = "".join(full)
+            out = ell + "".join(sorted(c for c in set(letters) if letters.count(c) == 1 and c not in ell))
+        else:
+            out = out.replace("...", ell)
+        dims = {}
+        for sub, o in zip(full, ops):
+            for c, n in zip(sub, o.shape):
+                if dims.get(c, n) != n and 1 not in (dims.get(c, n), n):
+                    raise ValueError("einsum: size mismatch on index %r" % c)
+                dims[c] = max(dims.get(c, 1), n)
+        summed = [c for c in dims if c not in out]
+        res = _np.empty(tuple(dims[c] for c in out), dtype=object)
+        import itertools as _it
+        for oidx in _it.product(*[range(dims[c]) for c in out]):
+            env = dict(zip(out, oidx))
+            acc = Sym({})
+            for sidx in _it.product(*[range(dims[c]) for c in summed]):
+                env.update(zip(summed, sidx))
+                term = None
+                for sub, o in zip(full, ops):
+                    v = o[tuple(env[c] if o.shape[k] != 1 else 0 for k, c in enumerate(sub))]
+                    term = Sym.of(v) if term is None else term * Sym.of(v)
+                acc = acc + term
+            res[oidx] = acc
+        return res if res.shape else res[()]
 
     # -- caps ----------------------------------------------------------------
     def _cap(self, a, b, which):
